@@ -12,6 +12,7 @@ import (
 	"github.com/hashicorp/raft"
 
 	"github.com/hashicorp/consul/agent/consul/fsm"
+	"github.com/hashicorp/consul/agent/rpc/middleware"
 	"github.com/hashicorp/consul/agent/structs"
 	"github.com/hashicorp/consul/agent/token"
 )
@@ -137,14 +138,16 @@ func verifNewServer(f *fsm.FSM, apply func(buf []byte) interface{}, acls bool) (
 	cfg.ConnectEnabled = true
 	logger := hclog.NewInterceptLogger(&hclog.LoggerOptions{Output: io.Discard})
 	srv := &Server{
-		config:     cfg,
-		fsm:        f,
-		raft:       vr.r,
-		logger:     logger,
-		loggers:    newLoggerStore(logger),
-		leaveCh:    make(chan struct{}),
-		shutdownCh: make(chan struct{}),
+		config:        cfg,
+		fsm:           f,
+		raft:          vr.r,
+		logger:        logger,
+		loggers:       newLoggerStore(logger),
+		leaveCh:       make(chan struct{}),
+		shutdownCh:    make(chan struct{}),
+		sessionTimers: NewSessionTimers(),
 	}
+	srv.rpcRecorder = middleware.NewRequestRecorder(logger, srv.IsLeader, cfg.Datacenter)
 	settings := ACLResolverSettings{ACLsEnabled: false, Datacenter: "dc1", NodeName: "node1", ACLDownPolicy: "extend-cache", ACLDefaultPolicy: "allow"}
 	caches := &structs.ACLCachesConfig{}
 	if acls {
@@ -170,6 +173,13 @@ func verifNewServer(f *fsm.FSM, apply func(buf []byte) interface{}, acls bool) (
 
 // VerifSetFSM points the server at another FSM object (worlds that are forks have their own).
 func (s *Server) VerifSetFSM(f *fsm.FSM) { s.fsm = f }
+
+// Session TTL timers (session_ttl.go): the timers are created parked (vtime.ParkTimers), the harness asks whether
+// one is armed and runs what it would run.
+func (s *Server) VerifSessionTimerArmed(id string) bool { return s.sessionTimers.Get(id) != nil }
+func (s *Server) VerifSessionTimers() int               { return s.sessionTimers.Len() }
+func (s *Server) VerifExpireSession(id string)          { s.invalidateSession(id, nil) }
+func (s *Server) VerifInitializeSessionTimers() error   { return s.initializeSessionTimers() }
 
 // VerifConfig gives the harness the server configuration (default intention policy, ...).
 func (s *Server) VerifConfig() *Config { return s.config }
